@@ -15,9 +15,9 @@ Representation choices:
   `pragma_once_files` is a set of `FileId`s: the ids are in bijection with the include names seen so far, so the
   set is modelled as a list of include names.  The cache of loaded files is not observable with a deterministic
   include handler and is not modelled.
-* the recursion of `preprocess_included_file` through `#include` is bounded by `fuel` (the Rust code has no bound: an
-  include cycle without `#pragma once` overflows the stack; that is C08's concern).  `Err.includeFuel` is reported,
-  never a default.
+* the recursion of `preprocess_included_file` through `#include` is bounded by `fuel`; since fix 6b8d369 the Rust
+  code has the bound `MAX_INCLUDE_DEPTH` (tested before the file is loaded): run with
+  `fuel = Gen.MacroTables.maxIncludeDepth`, `Err.includeFuel` is exactly `IncludeDepthExceeded`.
 * conditional directives belong to C11 and are answered `unsupported`.
 -/
 namespace RsslVerif.Model.Include
